@@ -1299,3 +1299,172 @@ func c09R10(c *Ctx, r *Report) {
 	}
 	r.Floor(rule, n, 1, "by-name look-ups in the constant evaluator")
 }
+
+// ---- C01.R19: a narrowed union is unpacked wherever the variable lives ------------------------------------------
+
+func init() {
+	lateInits = append(lateInits, func() {
+		props["C01"].Quick = append(props["C01"].Quick, c01R19)
+		props["C18"].Quick = append(props["C18"].Quick, c01R19)
+		props["C01"].Explanation += " (R19) loadIdent extracts the payload of a variable narrowed from a union for every storage class the plain load path knows for the same identifier kinds: local slots, the entry slots of parameters, and parameters that are used as they arrive."
+	})
+}
+
+func c01R19(c *Ctx, r *Report) {
+	const rule = "C01.R19"
+	r.Describe(rule, "mir/gen.loadIdent: the branch that builds mir.UnionExtract for an identifier narrowed from a union reads the union value from b.slots, b.paramSlots and b.paramsByName — each storage map the function's plain path reads for parameters and receivers")
+	fn := c.LookupFn(pkgMIRGen, "(*functionBuilder).loadIdent")
+	if !r.Anchor(rule, fn != nil && fn.Decl.Body != nil, "mir/gen.loadIdent") {
+		return
+	}
+	info := fn.Info()
+	mapsIn := func(x ast.Node) map[string]bool {
+		out := map[string]bool{}
+		ast.Inspect(x, func(y ast.Node) bool {
+			if ix, ok := y.(*ast.IndexExpr); ok {
+				if f := fieldOf(info, ix.X); f != nil {
+					if _, isMap := f.Type().Underlying().(*types.Map); isMap {
+						out[f.Name()] = true
+					}
+				}
+			}
+			return true
+		})
+		return out
+	}
+	// the innermost if-body that holds both the UnionExtract literal and a read of b.slots
+	var region *ast.BlockStmt
+	walkWithStack(fn.Decl.Body, func(x ast.Node, stack []ast.Node) bool {
+		cl, ok := x.(*ast.CompositeLit)
+		if !ok || !isNamed(info.TypeOf(cl), Mod+"/"+pkgMIR, "UnionExtract") {
+			return true
+		}
+		for i := len(stack) - 1; i >= 0; i-- {
+			if ifs, ok := stack[i].(*ast.IfStmt); ok && containsNode(ifs.Body, cl) && mapsIn(ifs.Body)["slots"] {
+				region = ifs.Body
+				break
+			}
+		}
+		return true
+	})
+	if !r.Anchor(rule, region != nil, "loadIdent: the branch that builds mir.UnionExtract from b.slots") {
+		return
+	}
+	// the plain path: storage maps read outside the region under a test of the symbol kind against parameter/receiver
+	plain := map[string]bool{}
+	ast.Inspect(fn.Decl.Body, func(x ast.Node) bool {
+		if x == ast.Node(region) {
+			return false
+		}
+		if ix, ok := x.(*ast.IndexExpr); ok {
+			if f := fieldOf(info, ix.X); f != nil && strings.HasPrefix(f.Name(), "param") {
+				plain[f.Name()] = true
+			}
+		}
+		return true
+	})
+	got := mapsIn(region)
+	for _, m := range sortedKeys(plain) {
+		r.Check(got[m], rule, fn.Name(), "narrowed-union branch reads b."+m, c.pos(region.Pos()),
+			"a parameter or receiver narrowed from a union is loaded through the plain path, which hands out the union's own address as if it were the variant: every field is read four bytes early (the tag) — `fn (h: Holder) M3(v: bool) -> i32 { if h is i32 { return -2; } else if v { return h.Id; } else { return h.Bal; } }` returned 10 and 0 for {.Bal = 10, .Id = 7}, and crashed with a str field")
+	}
+	r.Floor(rule, len(plain), 2, "parameter storage maps of loadIdent")
+}
+
+// ---- C12.R13: the cast guard for foreign structs covers the elements of containers ------------------------------
+
+func init() {
+	lateInits = append(lateInits, func() {
+		props["C12"].Quick = append(props["C12"].Quick, c12R13)
+		props["C12"].Explanation += " (R13) checkCastExpr decides no cast between structured types before a helper has walked source and target in parallel through array elements, map keys and values, optional and result payloads down to foreignPrivateField: a container of another module's structs is not converted into a container of look-alike local structs."
+	})
+}
+
+func c12R13(c *Ctx, r *Report) {
+	const rule = "C12.R13"
+	r.Describe(rule, "typechecker.checkCastExpr: every return after the compatibility of source and target has been computed is dominated by a call of a helper whose type switch has clauses for ArrayType (Element), MapType (Key, Value), OptionalType (Inner) and ResultType (Ok, Err) and which reaches foreignPrivateField")
+	fn := c.LookupFn(pkgTC, "checkCastExpr")
+	fpf := c.LookupFn(pkgTC, "foreignPrivateField")
+	compat := c.LookupFn(pkgTC, "checkTypeCompatibility")
+	if !r.Anchor(rule, fn != nil && fpf != nil && compat != nil && fn.Decl.Body != nil, "typechecker.checkCastExpr / foreignPrivateField / checkTypeCompatibility") {
+		return
+	}
+	info := fn.Info()
+	want := map[string][]string{"ArrayType": {"Element"}, "MapType": {"Key", "Value"}, "OptionalType": {"Inner"}, "ResultType": {"Ok", "Err"}}
+	var guard *Fn
+	missing := ""
+	for _, cl := range callsIn(fn.Decl.Body, false) {
+		g := c.FnOf(callee(info, cl))
+		if g == nil || g.Decl == nil || g.Decl.Body == nil || g.Obj == fpf.Obj || !reachesAdd(c, g.Obj, fpf.Obj, 0) {
+			continue
+		}
+		ginfo := g.Info()
+		have := map[string]map[string]bool{}
+		ast.Inspect(g.Decl.Body, func(x ast.Node) bool {
+			ts, ok := x.(*ast.TypeSwitchStmt)
+			if !ok {
+				return true
+			}
+			for _, cc := range caseClauses(ts.Body) {
+				for _, t := range caseTypes(ginfo, cc) {
+					nt := namedOf(t)
+					if nt == nil {
+						continue
+					}
+					fields := map[string]bool{}
+					for _, st := range cc.Body {
+						ast.Inspect(st, func(y ast.Node) bool {
+							if sel, ok := y.(*ast.SelectorExpr); ok {
+								fields[sel.Sel.Name] = true
+							}
+							return true
+						})
+					}
+					have[nt.Obj().Name()] = fields
+				}
+			}
+			return true
+		})
+		miss := ""
+		for _, tn := range sortedKeys(want) {
+			for _, f := range want[tn] {
+				if have[tn] == nil || !have[tn][f] {
+					miss += " " + tn + "." + f
+				}
+			}
+		}
+		if miss == "" {
+			guard = g
+			break
+		}
+		if missing == "" {
+			missing = g.Obj.Name() + " lacks" + miss
+		}
+	}
+	if !r.Check(guard != nil, rule, fn.Name(), "a helper walks container element types down to foreignPrivateField", c.pos(fn.Decl.Pos()),
+		"no helper called by checkCastExpr covers the element types of arrays, maps, optionals and results ("+missing+"): `a1 as []Mine` with `a1: []lib::Account` and a local look-alike `Mine` is accepted, and a method of Mine reads the private balance (prints 10)") {
+		return
+	}
+	var compatPos token.Pos
+	for _, cl := range callsIn(fn.Decl.Body, false) {
+		if isCallTo(info, cl, compat.Obj) && compatPos == token.NoPos {
+			compatPos = cl.Pos()
+		}
+	}
+	if !r.Anchor(rule, compatPos != token.NoPos, "checkCastExpr: checkTypeCompatibility(sourceType, targetType)") {
+		return
+	}
+	hits := mustFlow(c.CFG(fn), FlowSpec{
+		Gate: func(x ast.Node) bool { return nodeCalls(info, x, guard.Obj) != nil },
+		Target: func(x ast.Node) bool {
+			ret, ok := x.(*ast.ReturnStmt)
+			return ok && ret.Pos() > compatPos
+		},
+	})
+	pos := fn.Decl.Pos()
+	if len(hits) > 0 {
+		pos = hits[0].Pos
+	}
+	r.Check(len(hits) == 0, rule, fn.Name(), "no cast of structured types is decided before "+guard.Obj.Name()+" ran", c.pos(pos),
+		"a return of checkCastExpr after the compatibility computation is reachable without the container guard: the map / array / optional branch accepts a cast whose elements are another module's structs with private fields")
+}
